@@ -9,7 +9,7 @@ import sys
 import traceback
 
 
-SUITE_PROPS = ("C01", "C02", "C07", "C15")  # output-invariant checks also judge the repository's own test forms (W-suite)
+SUITE_PROPS = ("C01", "C02", "C03", "C07", "C09", "C10", "C14", "C15", "C16")  # output-invariant checks also judge the repository's own test forms (W-suite)
 
 
 class Ctx:
